@@ -5,3 +5,5 @@ import PysersicModel.Gen.Consts
 import PysersicModel.Opt.EarlyStop
 import PysersicModel.IO.SkyEstimate
 import PysersicModel.IO.Validate
+import PysersicModel.IO.Names
+import PysersicModel.IO.Results
